@@ -1,0 +1,147 @@
+//! Read-only introspection for external verification harnesses. This module
+//! is only compiled with the `verif_hooks` cargo feature and adds no behavior
+//! to the cache: it reports the raw layout of the table and of the intrusive
+//! list as plain numbers, without following any link and without touching any
+//! key or value. It is therefore safe to call on a cache whose links are
+//! suspected to be stale.
+
+use crate::LruCache;
+use crate::entry::Entry;
+
+use std::mem;
+
+/// One occupied bucket of the table.
+#[derive(Clone, Debug, PartialEq, Eq)]
+pub struct VerifBucket {
+
+    /// Index of the bucket in the table.
+    pub index: usize,
+
+    /// Address of the entry stored in the bucket.
+    pub addr: usize,
+
+    /// The size recorded in the entry.
+    pub size: usize,
+
+    /// The raw `prev` link of the entry (towards less recently used).
+    pub prev: usize,
+
+    /// The raw `next` link of the entry (towards more recently used).
+    pub next: usize
+}
+
+/// The raw layout of a cache.
+#[derive(Clone, Debug, PartialEq, Eq)]
+pub struct VerifDump {
+
+    /// Number of buckets of the table.
+    pub buckets: usize,
+
+    /// The first `buckets` control bytes of the table.
+    pub ctrl: Vec<u8>,
+
+    /// Number of occupied buckets according to the table.
+    pub items: usize,
+
+    /// The capacity reported by the table (`items + growth_left`).
+    pub capacity: usize,
+
+    /// Address of the table allocation.
+    pub alloc_addr: usize,
+
+    /// Size of the table allocation in bytes (0 if nothing is allocated).
+    pub alloc_size: usize,
+
+    /// One-past-the-end address of the bucket array (= control pointer).
+    pub data_end: usize,
+
+    /// `size_of::<Entry<K, V>>()`.
+    pub stride: usize,
+
+    /// Offset of the key slot within an entry.
+    pub key_offset: usize,
+
+    /// Offset of the value slot within an entry.
+    pub value_offset: usize,
+
+    /// Address of the seal.
+    pub seal: usize,
+
+    /// The raw `prev` link of the seal (least recently used entry).
+    pub seal_prev: usize,
+
+    /// The raw `next` link of the seal (most recently used entry).
+    pub seal_next: usize,
+
+    /// All occupied buckets in index order.
+    pub full: Vec<VerifBucket>,
+
+    /// The `current_size` field.
+    pub current_size: usize,
+
+    /// The `max_size` field.
+    pub max_size: usize,
+
+    /// Address and size of the cache struct itself.
+    pub self_addr: usize,
+
+    /// `size_of::<LruCache<K, V, S>>()`.
+    pub self_size: usize
+}
+
+impl<K, V, S> LruCache<K, V, S> {
+
+    /// Dumps the raw layout of this cache. Read-only.
+    pub fn verif_dump(&self) -> VerifDump {
+        let buckets = self.table.buckets();
+        let data_end = self.table.data_end().as_ptr() as usize;
+        let ctrl_ptr = data_end as *const u8;
+        let mut ctrl = Vec::with_capacity(buckets);
+
+        for i in 0..buckets {
+            ctrl.push(unsafe { *ctrl_ptr.add(i) });
+        }
+
+        let (alloc_ptr, alloc_layout) = self.table.allocation_info();
+        let mut full = Vec::with_capacity(self.table.len());
+
+        for bucket in unsafe { self.table.iter() } {
+            let index = unsafe { self.table.bucket_index(&bucket) };
+            let entry: &Entry<K, V> = unsafe { bucket.as_ref() };
+
+            full.push(VerifBucket {
+                index,
+                addr: bucket.as_ptr() as usize,
+                size: entry.size,
+                prev: entry.prev.verif_addr(),
+                next: entry.next.verif_addr()
+            });
+        }
+
+        full.sort_by_key(|b| b.index);
+
+        let (key_offset, value_offset) = Entry::<K, V>::verif_offsets();
+        let seal = self.seal.get();
+
+        VerifDump {
+            buckets,
+            ctrl,
+            items: self.table.len(),
+            capacity: self.table.capacity(),
+            alloc_addr: alloc_ptr.as_ptr() as usize,
+            alloc_size: alloc_layout.size(),
+            data_end,
+            stride: mem::size_of::<Entry<K, V>>(),
+            key_offset,
+            value_offset,
+            seal: self.seal.verif_addr(),
+            seal_prev: seal.prev.verif_addr(),
+            seal_next: seal.next.verif_addr(),
+            full,
+            current_size: self.current_size,
+            max_size: self.max_size,
+            self_addr: self as *const LruCache<K, V, S> as usize,
+            self_size: mem::size_of::<LruCache<K, V, S>>()
+        }
+    }
+}
